@@ -269,7 +269,59 @@ pub fn cases<T: KS + Send + Sync>(out: &mut Out, rng0: &mut Rng, tier: &Tier, wh
     out.nt = false;
 }
 
+/// C02 / C09 beyond 16-bit path lengths: one repeat-free contig of 66 000+ bases is ONE unbranched path; its table, given in
+/// chain order, is accepted by the linear verified checker chk.c02.chain (hypothesis of C02_chain_single_node), so
+/// compress_kmers - and compress_graph of the one-k-mer-per-node graph - must return exactly one node of n + K - 1 bases.
+fn long_chain<T: KS + Send + Sync>(out: &mut Out, rng: &mut Rng, stranded: bool, len: usize) {
+    let k = T::k();
+    // a random contig; repeat-free with overwhelming probability at K >= 31 (the checker decides)
+    let contig: Vec<u8> = (0..len).map(|_| rng.base()).collect();
+    let reads = vec![contig.clone()];
+    let tbl = table_of::<T>(&reads, stranded, 1, &[0u8]);
+    if tbl.len() != len - k + 1 {
+        return; // a repeated k-mer: not a simple chain
+    }
+    let by_key: std::collections::HashMap<T, (Exts, Pay)> = tbl.iter().map(|e| (e.0, ((e.1).0, (e.1).1.clone()))).collect();
+    // the entries in chain order
+    let mut chain: Vec<V> = Vec::with_capacity(tbl.len());
+    for i in 0..=(len - k) {
+        let q = T::from_bytes(&contig[i..i + k]);
+        let key = if stranded { q } else { q.min_rc() };
+        let (e, d) = &by_key[&key];
+        chain.push(entry_v(&key, *e, d));
+    }
+    let st = b(stranded);
+    out.nt = true;
+    out.case("chk.c02.chain", l(vec![nu(k), st.clone(), n(0u8), l(chain)]), b(true));
+    let hash = boom_of(&tbl);
+    let spec = PaySpec { mode: 0 };
+    let (hh, sp) = (&hash, &spec);
+    let g = guard(std::panic::AssertUnwindSafe(move || compress_kmers_with_hash(stranded, sp, hh)));
+    match &g {
+        Some(g) => out.case("chk.c02.single_node", l(vec![nu(k), nu(tbl.len()), base_nodes_v(g)]), b(true)),
+        None => out.case("chk.c02.single_node", l(vec![nu(k), nu(tbl.len()), l(vec![])]), V::Bot),
+    }
+    // the same path through compress_graph: one k-mer per node
+    let mut single: BaseGraph<T, Pay> = BaseGraph::new(stranded);
+    for (q, e, d) in hash.iter() {
+        single.add(bases_of(q), *e, d.clone());
+    }
+    let g2 = guard(std::panic::AssertUnwindSafe(move || compress_graph(stranded, &PaySpec { mode: 0 }, single.finish(), None).base));
+    match &g2 {
+        Some(g) => out.case("chk.c02.single_node", l(vec![nu(k), nu(tbl.len()), base_nodes_v(g)]), b(true)),
+        None => out.case("chk.c02.single_node", l(vec![nu(k), nu(tbl.len()), l(vec![])]), V::Bot),
+    }
+    out.nt = false;
+}
+
 pub fn run(out: &mut Out, rng: &mut Rng, tier: &Tier, which: &str) {
+    if which == "C02" && tier.shard == 0 {
+        let mut r = Rng::new(rng.0 ^ 0x5EED_C4A1);
+        long_chain::<debruijn::kmer::Kmer32>(out, &mut r, false, 66_100);
+        if tier.thorough {
+            long_chain::<debruijn::kmer::VarIntKmer<u64, debruijn::kmer::K31>>(out, &mut r, true, 131_200);
+        }
+    }
     cases::<debruijn::kmer::Kmer4>(out, rng, tier, which);
     cases::<debruijn::kmer::Kmer5>(out, rng, tier, which);
     cases::<debruijn::kmer::Kmer6>(out, rng, tier, which);
